@@ -18,6 +18,7 @@ from .._exceptions import (
     ConnectionNotAvailable,
     LocalProtocolError,
     RemoteProtocolError,
+    map_exceptions,
 )
 from .._models import Origin, Request, Response
 from .._synchronization import AsyncLock, AsyncSemaphore, AsyncShieldCancellation
@@ -481,7 +482,10 @@ class AsyncHTTP2Connection(AsyncConnectionInterface):
             self._connection_error = True
             raise exc
 
-        events: list[h2.events.Event] = self._h2_state.receive_data(data)
+        # Any protocol error that h2 raises here is caused by the data
+        # that the remote end has sent.
+        with map_exceptions({h2.exceptions.ProtocolError: RemoteProtocolError}):
+            events: list[h2.events.Event] = self._h2_state.receive_data(data)
 
         return events
 
